@@ -5,7 +5,6 @@ package sim
 
 import (
 	"fmt"
-	"testing/synctest"
 )
 
 func supportedOnly(c *SPCfg) bool {
@@ -31,7 +30,7 @@ func (w *World) finishTask(t *Task) {
 			return
 		}
 		w.resumeTask(t, "")
-		synctest.Wait()
+		w.settle()
 	}
 }
 
